@@ -247,12 +247,66 @@ def run(ctx):
             ctx.inst("C17-stop-at-first", "eval/closure-return", {"roots": sorted(roots)})
             # every return value must be either eval_root_ast's result or a propagated residual
             bad = [r for r in roots if not (r.endswith("eval_root_ast") or r.endswith("from_residual"))]
-            consts = [r for r in pc.roots(0) if r[0] in ("agg",)]
+            consts = [r for r in pc.roots(0) if r[0] in ("agg",)] if not rewrapped_only(c, pc) else []
             if bad or consts:
                 ctx.report("C17-stop-at-first", "eval/closure-swallows", "the fold closure can return a value not "
                            "produced by eval_root_ast (%s) — an error could be replaced" % (bad or consts), where_of(c))
         if not found:
             ctx.report("C17-stop-at-first", "eval/closure", "no closure of eval calls eval_root_ast", where_of(ev))
+
+    # ------------------------------------------------------------------ C17-incremental
+    ctx.rule("C17-incremental", "forms are read one at a time, each evaluated before the next is read (output of earlier "
+                                "forms precedes a later read error): outside the parser module nothing consumes a Parser "
+                                "eagerly except the evaluating try_fold / a `next` in the evaluating loop")
+    LAZY = {"map", "filter", "filter_map", "enumerate", "peekable", "skip_while", "take_while", "map_while", "skip", "take",
+            "scan", "flat_map", "flatten", "fuse", "inspect", "by_ref", "step_by", "chain", "zip", "cloned", "copied", "rev",
+            "size_hint", "into_iter"}
+    n_inc = 0
+    # the code that drives a program file: everything eval_file reaches before a form is handed to eval_root_ast
+    # (what happens inside the evaluation of one form, e.g. reading an imported library file, is not the program reader)
+    era_n = "interpreter::interpreter::Interpreter::eval_root_ast"
+    gl = fb.call_graph("lib")
+    drivers = fb.reachable_from(["interpreter::interpreter::Interpreter::eval_file"],
+                                graph={k: (v if k != era_n else set()) for k, v in gl.items()})
+    ctx.inst("C17-incremental", "driver-functions", sorted(x for x in drivers if not x.startswith("parser::") and "io::" not in x)[:12])
+    for crate in ("lib", "bin"):
+        for f in fb.all(crate):
+            if f.name.startswith("parser::") or f.name.startswith("<parser::"):
+                continue
+            if crate == "lib" and f.name.split("::{closure")[0] not in drivers:
+                continue
+            loops = None
+            for b, t in f.calls():
+                tys = t.get("argtys") or []
+                if not tys or "parser::Parser<" not in tys[0] or f.blocks[b]["cleanup"]:
+                    continue
+                c = callee(t) or ""
+                meth = c.rsplit("::", 1)[-1]
+                if not ("Iterator" in c or "itertools" in c.lower() or "FromIterator" in c or "Extend" in c):
+                    continue
+                n_inc += 1
+                owner = f.name.split("::{closure")[0].rsplit("::", 1)[-1]
+                ctx.inst("C17-incremental", "%s/%s" % (owner, meth))
+                if meth in LAZY:
+                    continue
+                if meth == "try_fold":
+                    ok = any(any(callee_matches(tt, "Interpreter::eval_root_ast") for _, tt in cl.calls()) for cl in fb.closures_of(f))
+                    why = "its closure does not evaluate the form"
+                elif meth == "next":
+                    loops = f.loop_blocks() if loops is None else loops
+                    # a reader of one library definition takes a single form: no loop, nothing to interleave
+                    ok = b not in loops or any(callee_matches(tt, "Interpreter::eval_root_ast", "Interpreter::eval_ast",
+                                                                 "Interpreter::eval_expression") and bb in loops for bb, tt in f.calls())
+                    why = "the loop that reads the forms does not evaluate them"
+                else:
+                    ok, why = False, "it drains the reader before anything is evaluated"
+                ctx.oblige(ok)
+                if not ok:
+                    ctx.report("C17-incremental", "%s/%s" % (owner, meth), "%s consumes the form reader with `%s`: %s, so output "
+                               "of forms before a read error would be lost / reordered" % (f.name, c, why), where_of(f, t))
+    ctx.floor("C17-incremental", 1)
+    if n_inc < 1:
+        ctx.report("C17-incremental", "floor", "no consumer of the form reader found outside the parser module", where_of(ev))
 
     # ------------------------------------------------------------------ C17-same-path
     ctx.rule("C17-same-path", "eval_file = record the program directory, then eval(file_char_stream(path)?)")
@@ -260,9 +314,20 @@ def run(ctx):
     fcs = [(b, t) for b, t in efn.calls() if callee_matches(t, "io::file_char_stream")]
     evc = [(b, t) for b, t in efn.calls() if callee_matches(t, "Interpreter::eval")]
     ctx.inst("C17-same-path", "eval_file/calls", {"file_char_stream": len(fcs), "eval": len(evc)})
-    if len(fcs) != 1 or len(evc) != 1:
-        ctx.report("C17-same-path", "eval_file/shape", "eval_file must call file_char_stream once and eval once "
-                   "(found %d, %d)" % (len(fcs), len(evc)), where_of(efn))
+    # every way from eval_file to the evaluation of a form goes through Interpreter::eval (the in-process path)
+    g = fb.call_graph("lib")
+    g2 = {k: {x for x in v if x != ev.name} for k, v in g.items() if k != ev.name}
+    era_name = "interpreter::interpreter::Interpreter::eval_root_ast"
+    bypass = era_name in fb.reachable_from([efn.name], graph=g2)
+    through = ev.name in fb.reachable_from([efn.name], graph=g)
+    ctx.inst("C17-same-path", "eval_file/call-graph", {"reaches_eval": through, "reaches_eval_root_ast_avoiding_eval": bypass})
+    ctx.oblige(through and not bypass)
+    if bypass or not through:
+        ctx.report("C17-same-path", "eval_file/bypasses-eval", "eval_file %s: the file is not run by the code path that "
+                   "evaluates the same text in-process" % ("evaluates forms without going through Interpreter::eval" if bypass
+                                                           else "never reaches Interpreter::eval"), where_of(efn))
+    elif len(fcs) != 1 or len(evc) != 1:
+        ctx.note("eval_file reaches eval through a helper; the stream/program-directory sub-rules apply to the direct shape only")
     else:
         p = Prov(efn)
         roots = {n for _, n in p.call_roots(0)}
@@ -298,3 +363,109 @@ def run(ctx):
             ctx.report("C17-same-path", "eval_file/program-directory", "program_directory is not assigned on every "
                        "path before eval", where_of(efn))
     return EXPLANATION, NOT_DECIDED
+
+
+def rewrapped_only(c, pc):
+    """Every aggregate that can reach the closure's return value is `Ok(payload)` with payload = the success value of a
+    `?` on eval_root_ast's result (a re-wrap, not a new value)."""
+    for r in pc.roots(0):
+        if r[0] != "agg":
+            continue
+        s = c.blocks[r[1]]["stmts"][r[2]]
+        rv = s["rv"]
+        if rv["kind"].get("variant") != "Ok" or len(rv["ops"]) != 1:
+            return False
+        root, path = mir.trace_access(c, rv["ops"][0])
+        rl = root[1] if isinstance(root, tuple) and root[0] == "local" else root
+        ok = False
+        for bb, tt in c.calls():
+            if callee_matches(tt, "std::ops::Try::branch") and tt["dest"]["local"] == rl and \
+                    any((x[2] or "").endswith("eval_root_ast") for x in pc.op_roots(tt["args"][0]) if x[0] == "call") and \
+                    [x for x in path if x not in ("Continue", 0, "0")] == []:
+                ok = True
+        if not ok:
+            return False
+    return True
+
+
+def last_value_rule(ctx, fb, rule):
+    """`Interpreter::eval` returns the value of the LAST form it evaluated (None for a definition), whatever came before:
+    try_fold shape — the closure ignores its accumulator and returns eval_root_ast's result;
+    loop shape — on every path from a successful eval_root_ast to the next iteration the returned variable is overwritten
+    with exactly that call's success payload."""
+    ev = fb.find("interpreter::interpreter::Interpreter::eval")
+    tf = [(b, t) for b, t in ev.calls() if callee_matches(t, "std::iter::Iterator::try_fold")]
+    if tf:
+        n = 0
+        for c in fb.closures_of(ev):
+            if not any(callee_matches(tt, "Interpreter::eval_root_ast") for _, tt in c.calls()):
+                continue
+            n += 1
+            pc = Prov(c)
+            roots = pc.roots(0)
+            acc = [r for r in roots if r[0] == "arg" and r[1] == 2]
+            # (arg 3 is the current form: its read error is what `statement?` propagates)
+            other = [r for r in roots if not (r[0] == "call" and ((r[2] or "").endswith("eval_root_ast") or (r[2] or "").endswith("from_residual")))
+                     and not (r[0] == "arg" and r[1] in (1, 3)) and not (r[0] == "agg" and rewrapped_only(c, pc))]
+            ctx.inst(rule, "eval/try_fold-closure", {"return_roots": sorted(str(r) for r in roots)})
+            ctx.oblige(not acc and not other)
+            if acc or other:
+                ctx.report(rule, "eval/closure-keeps-earlier-value", "the fold closure's result can come from %s, not only from the "
+                           "evaluation of the current form: a session ending in a definition would show an earlier value"
+                           % sorted(str(r) for r in (acc or other)), where_of(c))
+        if not n:
+            ctx.report(rule, "eval/closure", "no closure of eval calls eval_root_ast", where_of(ev))
+        return
+    loops = ev.loop_blocks()
+    era = [(b, t) for b, t in ev.calls() if callee_matches(t, "Interpreter::eval_root_ast") and b in loops]
+    if not era:
+        ctx.report(rule, "eval/shape", "eval neither try_folds nor loops over eval_root_ast", where_of(ev))
+        return
+    # the returned variable
+    acc_locals = set()
+    for b, i, s, a, v in mir.aggregates(ev):
+        if v == "Ok" and s["place"]["local"] == 0 and not ev.blocks[b]["cleanup"]:
+            root, path = mir.trace_access(ev, s["rv"]["ops"][0])
+            if isinstance(root, tuple) and root[0] == "local":
+                acc_locals.add(root[1])
+            elif isinstance(root, int):
+                acc_locals.add(root)
+    ctx.inst(rule, "eval/returned-variable", {"locals": sorted(acc_locals)})
+    if len(acc_locals) != 1:
+        ctx.report(rule, "eval/returned-variable", "cannot identify the variable eval returns (candidates %s)" % sorted(acc_locals), where_of(ev))
+        return
+    A = acc_locals.pop()
+    nexts = [b for b, t in ev.calls() if b in loops and callee_matches(t, "Iterator>::next", "Iterator::next")]
+    for b, t in era:
+        dest = t["dest"]["local"]
+        # success continuation of this call: the Continue arm of its `?`, or the Ok arm of a match on it
+        conts, payload_roots = [], {dest}
+        p = Prov(ev)
+        for bb, tt in ev.calls():
+            if callee_matches(tt, "std::ops::Try::branch") and ("call", b, callee(t)) in p.op_roots(tt["args"][0]):
+                sw = mir.result_switch_after(ev, bb)
+                if sw and sw[1].get(0) is not None:
+                    conts.append(sw[1][0])
+                    payload_roots.add(tt["dest"]["local"])
+        if not conts:
+            sw = mir.result_switch_after(ev, b)
+            if sw and sw[1].get(0) is not None:
+                conts.append(sw[1][0])
+        if not conts:
+            ctx.report(rule, "eval/result-not-matched", "the result of eval_root_ast is not matched / propagated", where_of(ev, t))
+            continue
+        good = set()
+        for bb, i, s in ev.stmts():
+            if s["k"] == "assign" and s["place"]["local"] == A and not s["place"]["proj"] and bb in loops and s["rv"]["k"] == "use":
+                root, path = mir.trace_access(ev, s["rv"]["op"])
+                rl = root[1] if isinstance(root, tuple) and root[0] == "local" else root
+                if rl in payload_roots and [x for x in path if x not in ("Continue", "Ok", 0, "0")] == []:
+                    good.add(bb)
+        ctx.inst(rule, "eval/loop-overwrite", {"variable": A, "overwrite_blocks": sorted(good)})
+        for c in conts:
+            w = mir.paths_avoiding(ev, c, nexts, good)
+            ctx.oblige(w is None)
+            if w is not None:
+                ctx.report(rule, "eval/keeps-earlier-value", "a path from a successfully evaluated form to the next iteration does "
+                           "not overwrite the returned variable with that form's value (blocks %s): a submission ending in a "
+                           "definition would show an earlier value" % w, where_of(ev, t))
